@@ -17,7 +17,7 @@ THEOREMS = ["C19_frozen", "C19_history", "C19_repeat", "C19_bus_map_refused", "C
 RULE = ("histories of 1-8 assemblies (valid, failing at scan / parse / code generation / emission, with custom .map "
         "mappings, under each ROM type, defining macros, symbols, tables and labels named like the probe's) run in ONE "
         "process before a probe program; the probe's blocks, labels and error are compared with the probe assembled alone in "
-        "a FRESH process and with the model; after the history a structural fingerprint of every module-level mutable object "
+        "a FRESH process and with the model (also: whole histories run inside ONE project directory with sub-directories and failing includes, nothing reset in between); after the history a structural fingerprint of every module-level mutable object "
         "of a816.* / script.* must be unchanged; the probe is also repeated; non-trivial: every history")
 PROVED_NOTE = ("proved on the process model: serving a request never changes the shared state, hence the response to a probe is "
                "independent of any history and repeatable; frozen buses refuse map/unmap; a program's .map lines go to its "
@@ -101,10 +101,35 @@ HISTORY_SNIPPETS = [
 HIST_FILES = {"t.tbl": {"tbl": [("a", [1]), ("b", [2]), ("ab", [3])]}, "pad.bin": [0] * 300}
 
 
+# one project directory shared by the whole history and the probe (relative file names, sub-directories)
+SHARED_FILES = {"defs.s": "val := 0x11\n", "lib/defs.s": "val := 0x99\n", "data.bin": [1, 2, 3], "lib/data.bin": [9, 9],
+                "lib/good.s": "nop\n", "lib/broken.s": "nop\nlda (1\n", "lib/badsuffix.s": "lda.q #1\n",
+                "lib/outer.s": "nop\n.include 'zz_missing.s'\n", "lib/undef.s": ".dw zz_nowhere\n",
+                "lib/nested.s": ".include 'lib/good.s'\nrts\n", "t.tbl": {"tbl": [("a", [1]), ("b", [2])]},
+                "lib/t.tbl": {"tbl": [("a", [7]), ("b", [8])]}}
+SHARED_HISTORY = ["*=0x008000\n.include 'lib/broken.s'\n", "*=0x008000\n.include 'lib/outer.s'\n",
+                  "*=0x008000\n.include 'lib/badsuffix.s'\n", "*=0x008000\n.include 'lib/good.s'\n",
+                  "*=0x008000\n.include 'lib/undef.s'\n", "*=0x008000\n.include 'lib/nested.s'\n",
+                  "*=0x008000\n.incbin 'lib/data.bin'\n", "*=0x008000\n.table 'lib/t.tbl'\n.text 'ab'\n",
+                  "*=0x008000\n.include 'zz_missing.s'\n", "*=0x008000\n.incbin 'zz_missing.bin'\n"]
+SHARED_PROBES = ["*=0x008000\n.include 'defs.s'\nlda #val\n", "*=0x008000\n.incbin 'data.bin'\nend:\n.dl end\n",
+                 "*=0x008000\n.table 't.tbl'\n.text 'ab'\n", "*=0x008000\n.include 'lib/nested.s'\n.include 'defs.s'\n.db val\n"]
+
+
 def cases(ctx):
     rng, tier = ctx["rng"], ctx["tier"]
     out = []
     n = 60 if tier == "quick" else 3000
+    for i in range(len(SHARED_HISTORY) * len(SHARED_PROBES) if tier == "quick" else 400):
+        if tier == "quick":
+            hist = [SHARED_HISTORY[i % len(SHARED_HISTORY)]]
+            probe = SHARED_PROBES[i // len(SHARED_HISTORY)]
+        else:
+            hist = [rng.choice(SHARED_HISTORY) for _ in range(rng.randrange(1, 6))]
+            probe = rng.choice(SHARED_PROBES)
+        out.append({"kind": "shared-dir", "rom": "low", "src": probe, "files": dict(SHARED_FILES), "shared_dir": True,
+                    "history": [{"src": h, "rom": rng.choice([None, "low"])} for h in hist], "count_empty": True,
+                    "spec": {"t": "twin", "labels": True}})
     for i in range(n):
         history = []
         for _ in range(rng.randrange(1, 9)):
@@ -135,16 +160,24 @@ BASELINE = ("import json, sys\nfrom a816v import e2e\ncase = json.load(sys.stdin
 
 
 def observe(case):
+    import contextlib
+    shared = bool(case.get("shared_dir"))
     before = fingerprint()
-    for h in case["history"]:
-        try:
-            e2e.observe_string_api({"src": h["src"], "files": h.get("files"), "rom": h.get("rom")})
-        except Exception as e:           # a watchdog timeout inside the history is the probe's problem too
-            if type(e).__name__ == "Timeout":
-                raise
     probe = {"src": case["src"], "files": case.get("files"), "rom": case.get("rom")}
-    first = e2e.observe_string_api(probe)
-    again = e2e.observe_string_api(probe)
+    # shared_dir: history and probe run in ONE directory laid out once (nothing resets the process in between)
+    with (e2e.asmdriver.sandbox(e2e._files_on_disk(probe)) if shared else contextlib.nullcontext()):
+        cwd_before = os.getcwd()
+        for h in case["history"]:
+            try:
+                e2e.observe_string_api({"src": h["src"], "files": h.get("files"), "rom": h.get("rom")}, in_place=shared)
+            except Exception as e:           # a watchdog timeout inside the history is the probe's problem too
+                if type(e).__name__ == "Timeout":
+                    raise
+        first = e2e.observe_string_api(probe, in_place=shared)
+        again = e2e.observe_string_api(probe, in_place=shared)
+        cwd_after = os.getcwd()
+        if shared:
+            os.chdir(cwd_before)
     after = fingerprint()
     env = dict(os.environ, PYTHONPATH=f"{C.REPO}:{C.VERIF / 'harness'}", PYTHONHASHSEED="0", PYTHONDONTWRITEBYTECODE="1")
     p = subprocess.run([sys.executable, "-c", BASELINE], input=json.dumps(probe), env=env, capture_output=True, text=True,
@@ -159,4 +192,7 @@ def observe(case):
     if before != after:
         ob["twin"] = {"timeout": True}
         ob["note"] = "a module-level object changed during the history"
+    if cwd_before != cwd_after:
+        ob["twin"] = {"timeout": True}
+        ob["note"] = "the working directory of the process changed during the history"
     return ob
